@@ -38,6 +38,7 @@ func (s *spec) flags(i int) *spec {
 	s.setPeer = i%3 == 1
 	s.wire = i%5 >= 3
 	s.genKey = i%2 == 1
+	s.scrib = (i / 3) % 4
 	return s
 }
 
@@ -206,6 +207,63 @@ func agree(x *mon.Ctx) {
 		}
 	}
 
+	// ---- static key tied to the ephemeral key: d = +-(x~ r) mod n, i.e. P = +-[x~]R. With "+"
+	// the peer's step P + [x~]R is a doubling (the equal-points case of the addition) and
+	// t = 2d; with "-" the sum is the point at infinity and t = 0: both parties must refuse.
+	// The reference decides.
+	for _, rel := range []string{"P=[x~]R", "P=-[x~]R"} {
+		for side := 0; side < 3; side++ { // 0: initiator's keys, 1: responder's keys, 2: both
+			for rep := 0; rep < x.Scale(6, 40); rep++ {
+				k := next()
+				c := x.Begin("relation %s side=%d rep=%d flags#%d (scalars drawn from the case PRNG)", rel, side, rep, k)
+				if c == nil {
+					continue
+				}
+				s := (&spec{gen: "relation", dA: randScalar(c.R), rA: randScalar(c.R), dB: randScalar(c.R), rB: randScalar(c.R),
+					idA: idPool[k%len(idPool)], idB: idPool[(k/5)%len(idPool)], klen: 16 + k%40}).flags(k)
+				tie := func(r *big.Int) *big.Int { // d for the relation, nil if outside [1,n-2]
+					d := new(big.Int).Mul(sm2kx.XBar(ec.BaseMul(r).X), r)
+					d.Mod(d, ec.N)
+					if rel == "P=-[x~]R" {
+						d.Sub(ec.N, d)
+					}
+					if d.Sign() <= 0 || d.Cmp(nMinus2) > 0 {
+						return nil
+					}
+					return d
+				}
+				if rep%3 == 2 { // small and structured ephemeral scalars too
+					s.rA, s.rB = big.NewInt(int64(1+c.R.Intn(1000))), static(S[c.R.Intn(len(S))].v)
+				}
+				ok := true
+				if side == 0 || side == 2 {
+					if d := tie(s.rA); d != nil {
+						s.dA = d
+					} else {
+						ok = false
+					}
+				}
+				if side == 1 || side == 2 {
+					if d := tie(s.rB); d != nil {
+						s.dB = d
+					} else {
+						ok = false
+					}
+				}
+				if !ok {
+					c.Inconclusive("tied static key outside [1,n-2]")
+					c.End()
+					continue
+				}
+				c.Detail("session", s.String())
+				c.Class("relation/%s/side%d/mode%d/gen=%v/wire=%v", rel, side, s.mode, s.genKey, s.wire)
+				c.Event("relation/"+rel, 1)
+				session(x, c, s)
+				c.End()
+			}
+		}
+	}
+
 	// ---- ephemeral points with special x coordinates (bounded search over small multiples)
 	sp := specialX(x, x.Scale(4096, 32768))
 	for i, a := range sp {
@@ -306,7 +364,7 @@ func agree(x *mon.Ctx) {
 			continue
 		}
 		s := (&spec{gen: "random", dA: randScalar(c.R), rA: randScalar(c.R), dB: randScalar(c.R), rB: randScalar(c.R),
-			idA: c.R.Bytes(c.R.Intn(40)), idB: c.R.Bytes(c.R.Intn(40)), klen: 1 + c.R.Intn(200)}).flags(c.R.Intn(60))
+			idA: c.R.Bytes(c.R.Intn(40)), idB: c.R.Bytes(c.R.Intn(40)), klen: 1 + c.R.Intn(200)}).flags(c.R.Intn(240))
 		if c.R.Intn(8) == 0 {
 			s.rA = S[c.R.Intn(len(S))].v
 		}
